@@ -1,6 +1,9 @@
-//! `rules [RuleName]`: registered values -> the REAL `InferenceRules::default().infer` (or the single rule named
-//! on the command line) on every registered value, in type-variable order (order hook H1 = Sorted) -> the
-//! judgement set of every type variable.
+//! `rules [RuleName] [sorted|sortedrev|reversed|seed:<n>]`: registered values -> the REAL
+//! `InferenceRules::default().infer` (or the single rule named on the command line) on every registered value, in
+//! type-variable order -> the judgement set of every type variable.  The second argument is the order mode of hook
+//! H1 while the rules run: it decides the order in which `InferenceRules::infer` walks its rule set (hook point
+//! `tc.rules`, key = the rule's Debug name); default `sorted`.  Several comma-separated modes type the same values
+//! under each mode (output joined by ` ||| `).  The values are always visited in type-variable order.
 //!
 //! Input lines as for `register` (`vals ...` / `prog ...`).  Output: a Coq term of type `ucase` (coq/TcCases.v):
 //! `UC "rule or *" [input values] (UR tyvar_count [(var, [type expressions])...])` | `UC .. (UErr "...")` | `UC .. UPanic`.
@@ -70,7 +73,11 @@ pub fn inference_table(state: &TypeCheckerState) -> String {
 
 /// runs the rules over the registered values the way `TypeChecker::infer` does (values cloned first)
 pub fn run_rules(rules: &mut InferenceRules, state: &mut TypeCheckerState) -> Result<(), String> {
-    set_order_mode(OrderMode::Sorted);
+    run_rules_in(rules, state, OrderMode::Sorted)
+}
+
+pub fn run_rules_in(rules: &mut InferenceRules, state: &mut TypeCheckerState, mode: OrderMode) -> Result<(), String> {
+    set_order_mode(mode);
     let values = sorted_values(state);
     let mut res = Ok(());
     for v in values {
@@ -85,6 +92,10 @@ pub fn run_rules(rules: &mut InferenceRules, state: &mut TypeCheckerState) -> Re
 
 pub fn run(args: &[String], lines: &mut dyn Iterator<Item = String>, out: &mut dyn Write) {
     let name = args.first().map_or("*", String::as_str).to_string();
+    let mode_arg = args.get(1).map_or("sorted", String::as_str).to_string();
+    // several comma-separated modes: the SAME values are registered afresh and typed under each mode; the output line
+    // is the `UC ..` terms of all modes joined by " ||| " (input of TcCases.check_rule_order)
+    let modes: Vec<OrderMode> = mode_arg.split(',').map(crate::cmd_analyze::parse_order).collect();
     for line in lines {
         let vs = match guarded(|| input_values(&line)) {
             Ok(Ok(v)) => v,
@@ -103,17 +114,21 @@ pub fn run(args: &[String], lines: &mut dyn Iterator<Item = String>, out: &mut d
             writeln!(out, "BADINPUT unknown rule {name}").unwrap();
             continue;
         };
-        let r = guarded(|| {
-            let (mut state, _) = register_all(&vs);
-            match run_rules(&mut rules, &mut state) {
-                Ok(()) => format!("(UR {} {})", state.tyvar_count(), inference_table(&state)),
-                Err(e) => format!("(UErr {})", coq_string(&e)),
-            }
-        });
-        set_order_mode(OrderMode::Natural);
-        match r {
-            Ok(t) => writeln!(out, "UC {} {inputs} {t}", coq_string(&name)).unwrap(),
-            Err(_) => writeln!(out, "UC {} {inputs} UPanic", coq_string(&name)).unwrap(),
+        let mut outs = vec![];
+        for mode in &modes {
+            let r = guarded(|| {
+                let (mut state, _) = register_all(&vs);
+                match run_rules_in(&mut rules, &mut state, *mode) {
+                    Ok(()) => format!("(UR {} {})", state.tyvar_count(), inference_table(&state)),
+                    Err(e) => format!("(UErr {})", coq_string(&e)),
+                }
+            });
+            set_order_mode(OrderMode::Natural);
+            outs.push(match r {
+                Ok(t) => format!("UC {} {inputs} {t}", coq_string(&name)),
+                Err(_) => format!("UC {} {inputs} UPanic", coq_string(&name)),
+            });
         }
+        writeln!(out, "{}", outs.join(" ||| ")).unwrap();
     }
 }
